@@ -8,8 +8,8 @@
     - the file system: a finite map from paths to GeoPackage contents ([fsys]); [os.Remove] removes the
       entry, [gpkg.Open] creates an initialised empty GeoPackage when there is none;
     - SQLite / the GeoPackage library: the abstract database of Gpkg/Model.v;
-    - [path.Split], [path.Ext], [path.Join] (with [path.Clean]) and [fmt.Sprintf] with one [%v]:
-      re-implemented below over strings as lists of characters;
+    - [path.Split], [path.Ext], [path.Join] (with [path.Clean]), [strings.ReplaceAll(p, "%", "%%")] and
+      [fmt.Sprintf] with the verbs [%v] (once) and [%%]: re-implemented below over strings as lists of characters;
     - the snapping library and the processing pipeline are the Section variables [snap] and [pipeline]
       (the models of the Snap and Pipe areas): the CLI is a composition of them with the writer. *)
 From Coq Require Import ZArith NArith List Bool String Ascii DecimalString.
@@ -112,30 +112,71 @@ Definition path_join2 (a b : str) : str :=
   | _, _ => path_clean (a ++ slash :: b)
   end.
 
-(** injectSuffixIntoPath main.go:223 *)
-Definition inject_format (p : str) : str :=
+(** strings.ReplaceAll(p, "%", "%%"): every percent sign doubled (F21: the result of injectSuffixIntoPath is used
+    as a FORMAT; a percent sign of the given path has to stand for itself) *)
+Fixpoint escape_percent (s : str) : str :=
+  match s with
+  | [] => []
+  | c :: r => if Ascii.eqb c percent then percent :: percent :: escape_percent r else c :: escape_percent r
+  end.
+
+(** injectSuffixIntoPath main.go:232 without its first statement (the function as it was before the repair F21) *)
+Definition inject_format_raw (p : str) : str :=
   let (dir, file) := path_split p in
   let ext := path_ext file in
   let name := strip_ext file in
   path_join2 dir (name ++ s_ "_%v" ++ ext).
 
+(** injectSuffixIntoPath main.go:232: p = strings.ReplaceAll(p, "%", "%%"), then Split / Ext / Join on the ESCAPED path *)
+Definition inject_format (p : str) : str := inject_format_raw (escape_percent p).
+
 (** ** Decimal printing ([%v] of an int) *)
 Definition dec (z : Z) : str := s_ (NilZero.string_of_int (Z.to_int z)).
 
-(** fmt.Sprintf(format, id) for a format with exactly one verb, [%v].  Anything else in the format
-    (another '%') is outside the model: [None]. *)
 Fixpoint count_char (c : ascii) (s : str) : nat :=
   match s with [] => O | x :: r => (if Ascii.eqb x c then 1 else 0) + count_char c r end.
 
-Definition sprintf_v (fmt : str) (id : Z) : option str :=
-  if negb (Nat.eqb (count_char percent fmt) 1) then None
-  else match drop_until percent fmt with
-       | _ :: v :: rest => if Ascii.eqb v "v"%char then Some (take_until percent fmt ++ dec id ++ rest) else None
-       | _ => None
-       end.
+(** fmt.Sprintf(format) WITHOUT arguments left, for a format whose only verb is [%%] (a literal percent sign).
+    Any other verb ([%v] would print %!v(MISSING)), or a '%' at the very end (%!(NOVERB)), is outside the model: [None]. *)
+Fixpoint sprintf_lits (fmt : str) : option str :=
+  match fmt with
+  | [] => Some []
+  | c :: r =>
+      if Ascii.eqb c percent then
+        match r with
+        | v :: r' => if Ascii.eqb v percent then option_map (cons percent) (sprintf_lits r') else None
+        | [] => None
+        end
+      else option_map (cons c) (sprintf_lits r)
+  end.
 
-(** the target path for a tile matrix id (initGPKGTarget main.go:208) *)
+(** fmt.Sprintf(format, id) for an int [id] and a format made of plain characters, [%%] (prints a percent sign) and
+    EXACTLY ONE [%v] (prints the id in decimal).  Everything else is outside the model, [None]: another verb or a flag
+    after '%' ("%d", "%20v", "%_": Go prints the argument in another way or "%!_(int=5)"), a '%' at the very end
+    ("%!(NOVERB)"), no [%v] at all ("%!(EXTRA int=5)"), a second [%v] ("%!v(MISSING)"). *)
+Fixpoint sprintf_v (fmt : str) (id : Z) : option str :=
+  match fmt with
+  | [] => None
+  | c :: r =>
+      if Ascii.eqb c percent then
+        match r with
+        | v :: r' =>
+            if Ascii.eqb v percent then option_map (cons percent) (sprintf_v r' id)
+            else if Ascii.eqb v "v"%char then option_map (app (dec id)) (sprintf_lits r')
+            else None
+        | [] => None
+        end
+      else option_map (cons c) (sprintf_v r id)
+  end.
+
+(** the target path for a tile matrix id (initGPKGTarget main.go:217) *)
 Definition inject (p : str) (id : Z) : option str := sprintf_v (inject_format p) id.
+
+(** what the property says the target of tile matrix [id] is: the given path with "_<id>" inserted before the
+    extension of its last element (and cleaned as path.Join does); no format, no escaping *)
+Definition target_path (p : str) (id : Z) : str :=
+  let (dir, file) := path_split p in
+  path_join2 dir (strip_ext file ++ s_ "_" ++ dec id ++ path_ext file).
 
 (** ** Flags (main.go:45-114) and their plumbing (main.go:142-148) *)
 Record flags := MkFlags {
@@ -175,7 +216,7 @@ Definition fs_write (p : str) (d : db) (fs : fsys) : fsys := (p, d) :: fs_remove
 Inductive cerr :=
 | InvalidTms             (* LoadEmbeddedTileMatrixSet / json.Unmarshal / validateTileMatrixSet: error returned *)
 | NoSource               (* os.Stat(source): log.Fatalf *)
-| UnsafePath             (* a '%' in the target path: outside the model *)
+| UnsafePath             (* fmt.Sprintf on a format outside the model; since F21 no target path leads here (Proofs.inject_spec) *)
 | PipelinePanic          (* the processing pipeline panics (e.g. a polygon outside the grid without -iog) *)
 | Gpkg (e : gerr).       (* a target writer stops the process *)
 
